@@ -70,6 +70,7 @@ OBLIGATIONS = [
     "VgiVerif.C38.C38_outcome",
     "VgiVerif.C38.C38_once_exchange",
     "VgiVerif.C38.C38_once_cancel",
+    "VgiVerif.C38.C38_cancel_idempotent",
     "VgiVerif.C38.C38_sites",
     "VgiVerif.C38.C38_client",
     "VgiVerif.C38.C38_client_noretry",
